@@ -10,6 +10,7 @@ import (
 	"sort"
 	"strings"
 	"testing"
+	"time"
 
 	"github.com/Shopify/sarama/internal/vfcore"
 	"pgregory.net/rapid"
@@ -159,8 +160,17 @@ func vfGenGroupCase(t *rapid.T, strategy string, maxM, maxT, maxP, maxSteps int,
 	for s := 0; s < steps; s++ {
 		what := "initial"
 		if s > 0 {
-			what = rapid.SampledFrom([]string{"same", "join", "leave", "subchange", "grow", "shrink", "droptopic", "join", "leave"}).Draw(t, fmt.Sprintf("step%d", s))
+			what = rapid.SampledFrom([]string{"same", "join", "leave", "subchange", "grow", "shrink", "droptopic", "join", "leave", "joinwide"}).Draw(t, fmt.Sprintf("step%d", s))
 			switch what {
+			case "joinwide":
+				// whatever the subscription mode of the group, the newcomer subscribes to a random (often large) subset:
+				// it competes with members that can each take only part of what it can take
+				what = "join"
+				if len(members) < maxM+2 {
+					members = append(members, vfGMember{ID: vfDrawMemberID(t, taken, fmt.Sprintf("j%d", s)), Topics: vfDrawSubset(t, universe, fmt.Sprintf("jwsub%d", s))})
+				} else {
+					what = "same"
+				}
 			case "join":
 				if len(members) < maxM+2 {
 					members = append(members, vfGMember{ID: vfDrawMemberID(t, taken, fmt.Sprintf("j%d", s)), Topics: mkSub(len(members), fmt.Sprintf("jsub%d", s))})
@@ -364,8 +374,29 @@ func vfPlanKey(plan BalanceStrategyPlan) string {
 	return strings.Join(lines, ";")
 }
 
-// vfRunGroupCase executes a chain and applies the oracles selected by prop ("C08" or "C13").
-func vfRunGroupCase(c *vfGCase, r *vfcore.Rec, prop string) (fail *vfcore.Failure) {
+// vfPlanBudget bounds one whole chain (at most a few dozen Plan calls over at most a few hundred partitions; the
+// slowest chain observed on the unchanged tree takes well under 100 ms, so the bound is three orders of magnitude
+// above that, and it is only ever reached when Plan does not come back at all).
+var vfPlanBudget = time.Duration(vfcore.EnvInt("VF_PLAN_BUDGET_MS", 60000)) * time.Millisecond // the override is a development aid
+
+// vfRunGroupCase executes a chain and applies the oracles selected by prop ("C08" or "C13"). Plan is a pure function
+// that has to return; a chain that does not finish within vfPlanBudget is reported with the goroutine dump, and the
+// process stops at once because the goroutine that is still inside Plan cannot be cancelled.
+func vfRunGroupCase(c *vfGCase, r *vfcore.Rec, prop string) *vfcore.Failure {
+	done := make(chan *vfcore.Failure, 1)
+	go func() { done <- vfRunGroupCaseInner(c, r, prop) }()
+	select {
+	case f := <-done:
+		return f
+	case <-time.After(vfPlanBudget):
+		f := vfcore.Failf("plan-hang", "strategy %s: Plan did not return within %v (see the goroutine dump for where it is)", c.Strategy, vfPlanBudget)
+		f.History = vfcore.Stacks()
+		f.Fatal = true
+		return f
+	}
+}
+
+func vfRunGroupCaseInner(c *vfGCase, r *vfcore.Rec, prop string) (fail *vfcore.Failure) {
 	defer func() {
 		if v := recover(); v != nil {
 			fail = vfcore.Failf(vfcore.PanicSite(v, "github.com/Shopify/sarama.", "vf"), "Plan panicked: %v", v)
